@@ -38,6 +38,7 @@ def scenarios(draw):
 
 def evaluate(case, ctx):
     sc = case
+    split_regions = []
     res = pipeline.run_case(sc, ctx)
     try:
         mg = res.path("transcript_models.gtf")
@@ -46,6 +47,9 @@ def evaluate(case, ctx):
         if res.code != 0 or not mg or not bed or not mr:
             ctx.note("crash:" + res.crash_signature())
             return
+        if sc.get("split_locus"):
+            import os
+            split_regions = parse.log_regions(os.path.join(res.out, "isoquant.log"))
         models = parse.gtf(mg)
         tt = gtfcheck.transcript_table(models)
         ref = gtfcheck.ref_table(sc)
@@ -111,6 +115,12 @@ def evaluate(case, ctx):
                 if key in novel_chains:
                     sig = "C04:two-novel-transcripts-share-intron-chain"
                     sig += ":mono-intron" if len(ch) == 1 else ":multi-intron"
+                    if sc.get("split_locus") and sum(1 for ra, rb in split_regions
+                                                     if ra <= ch[-1][1] and rb >= ch[0][0]) >= 2:
+                        # root cause of a known finding: models are built per processing region and never compared
+                        # across regions; the reads of one isoform whose introns reach over a split point can end
+                        # up in two regions
+                        sig += ":built-in-different-regions"
                     ctx.violation(sig, {"transcripts": [novel_chains[key], tid], "chain": ch[:5],
                                         "exons": [tt[novel_chains[key]]["exons"], ex]}, case)
                 novel_chains.setdefault(key, tid)
@@ -136,10 +146,13 @@ def split_scenarios(draw):
     rnd = draw(st.randoms(use_true_random=True))
     src = S.RndSrc(rnd)
     annotated = draw(st.sampled_from([True, True, False]))
-    sc = S.gen_long_gene_locus(src, with_annotation=annotated, straddle=True, x_annotated=False,
-                               n_cross=draw(st.sampled_from([1, 2, 3, 4])))
+    if draw(st.sampled_from([0, 1])):
+        sc = S.gen_balanced_novel_locus(src, with_annotation=annotated)
+    else:
+        sc = S.gen_long_gene_locus(src, with_annotation=annotated, straddle=True, x_annotated=False,
+                                   n_cross=draw(st.sampled_from([1, 2, 3, 4])))
     sc["opts"] = ["--data_type", draw(st.sampled_from(["nanopore", "pacbio_ccs"])), "--no_gzip", "--threads",
-                  str(draw(st.sampled_from([1, 2])))]
+                  str(draw(st.sampled_from([1, 2]))), "--debug"]
     if draw(st.booleans()):
         sc["opts"] += ["--high_memory"]
     if draw(st.booleans()):
